@@ -280,6 +280,22 @@ def run(tier, seed):
             if not os.path.exists(infile):
                 ck.fail('input deleted although nothing could be written to stdout (pipe without reader, EPIPE)',
                         {'op': 'clean-os', 'case': 'closed-pipe', 'optimise': opt, 'exit': p.returncode, 'stderr': se.decode(errors='replace')[-300:]}, 'os_pipe')
+        # stdout CLOSED before the tool starts (`peltool -f x --clean >&-`): sys.stdout is None, print() delivers nothing to anybody
+        for opt in (False, True):
+            for hexopt in ([], ['-x']):
+                open(infile, 'wb').write(good)
+                p = subprocess.Popen([common.PY] + (['-O'] if opt else []) + ['-W', 'ignore', clirun.PELTOOL, '-f', infile, '--clean'] + hexopt,
+                                     stderr=subprocess.PIPE, env=common.child_env(), preexec_fn=lambda: os.close(1))
+                try:
+                    _, se = p.communicate(timeout=60)
+                except subprocess.TimeoutExpired:
+                    p.kill()
+                    se = b'HANG'
+                ck.case(key=('os', 'closed', opt, bool(hexopt)), sample={'real_os': '-f x --clean %s with stdout closed' % ' '.join(hexopt), 'exit': p.returncode, 'input_present': os.path.exists(infile)})
+                ck.count('real-OS stdout closed')
+                if not os.path.exists(infile):
+                    ck.fail('input deleted although nothing could be written: stdout was closed',
+                            {'op': 'clean-os', 'case': 'stdout-closed' + (' -x' if hexopt else ''), 'optimise': opt, 'exit': p.returncode, 'stderr': se.decode(errors='replace')[-300:]}, 'os_closed')
         # --json --clean over several files: the output of the SECOND file cannot be opened (its name exists as a directory);
         # the first file's success must not carry over
         for order in ('good-first', 'bad-first'):
